@@ -33,6 +33,10 @@ type Rev struct {
 	Info            string        // key of the info dict ("" = none)
 	ExtraTrailer    Dict
 	TableGapsAsFree bool // classic table: list gaps as free entries in one subsection instead of several subsections
+	// FreeUnlinked (updates only): freed objects are written as "0000000000 65535 f"
+	// (never to be reused, not linked into the free list) and object 0 is not listed
+	// again — an update section may then start with such an entry ("3 1" …)
+	FreeUnlinked bool
 	ObjStmExtends   bool // every object-stream container after the first carries /Extends <previous container> (ISO 32000-1 7.5.7)
 	Mutate          *Mutation
 	// filled by WriteRevision: entries per object-stream container, xref stream entries
@@ -427,7 +431,12 @@ func (f *File) WriteRevision(rv *Rev) {
 	}
 	// free entries: freed objects get generation+1; object 0 heads the list
 	first := f.prevXRef < 0
-	if len(rv.Free) > 0 || first {
+	if rv.FreeUnlinked && !first {
+		for _, n := range rv.Free {
+			f.freed[n] = true
+			ents[n] = xrefEnt{0, 0, 65535}
+		}
+	} else if len(rv.Free) > 0 || first {
 		for _, n := range rv.Free {
 			f.freed[n] = true
 			f.gens[n]++
